@@ -189,3 +189,120 @@ Proof.
         destruct (is_neg qy || is_zero qy && is_neg _); cbn [map]; intros dp [<-|[<-|[]]]; cbn [snd p_acc];
           try exact Ha; exact account_ok_equity.
 Qed.
+
+(* what the query does with a posting, as an indicator times the amount *)
+Definition q_ind (q : query) (row : account) (k : rkey) (d : Z) (a : account) (c : commodity) : Q :=
+  if q_where q a c then
+    match q_account q a with
+    | ShAcc a' => if acc_eqb a' row then (if rkey_eqb (q_date q d, Some c) k then 1 else 0) else 0
+    | _ => 0
+    end
+  else 0.
+
+Lemma q_contrib_ind q row k d p :
+  q_contrib q row k (d, p) == q_ind q row k d (p_acc p) (p_com p) * dvalue (if q_valued q then p_val p else p_qty p).
+Proof.
+  unfold q_contrib, q_ind. destruct (q_where q (p_acc p) (p_com p)); [|ring].
+  destruct (q_account q (p_acc p)) as [a'| |]; try ring.
+  unfold delta_at, contrib, idk. destruct (acc_eqb a' row); [|ring].
+  destruct (rkey_eqb (q_date q d, Some (p_com p)) k); ring.
+Qed.
+
+Lemma day_postings_txns d : day_postings d = txns_postings (d_txns d).
+Proof. reflexivity. Qed.
+
+Lemma txns_postings_app a b : txns_postings (a ++ b) = txns_postings a ++ txns_postings b.
+Proof. unfold txns_postings. rewrite map_app, concat_app. reflexivity. Qed.
+
+Definition firstclose (cds : list Z) (ds : list day) : option Z :=
+  find (fun x => existsb (Z.eqb x) cds) (dates ds).
+
+Section CloseFold.
+  Variable q : query.
+  Variable row : account.
+  Variable k : rkey.
+  Hypothesis unvalued : q_valued q = false.
+  Variable cds : list Z.
+
+  (* a quantity x carried from (a, c) to Equity:Equity on day S shows up as G S a c * x *)
+  Definition G (cd : Z) (a : account) (c : commodity) : Q :=
+    q_ind q row k cd equity_account c - q_ind q row k cd a c.
+
+  Lemma closing_txns_total date vs : forall m,
+    q_total q row k (txns_postings (closing_txns date m vs)) == msum (G date) m.
+  Proof.
+    induction m as [|[k0 [[a c] qy]] m IH]; cbn [closing_txns].
+    - reflexivity.
+    - rewrite msum_cons. cbn [fst snd].
+      destruct (is_zero qy && is_zero (match pos_get vs a c with Some x => x | None => dec_nil end)) eqn:Ez.
+      + apply andb_true_iff in Ez. destruct Ez as [Ez _]. apply is_zero_value in Ez. rewrite IH, Ez. ring.
+      + unfold txns_postings in *. cbn [map concat t_date t_postings]. rewrite q_total_app, IH.
+        unfold pair_build, G.
+        destruct (is_neg qy || is_zero qy && is_neg _); cbn [map]; unfold q_total; cbn [fold_right];
+          rewrite !q_contrib_ind, unvalued; cbn [p_acc p_com p_qty]; rewrite ?dvalue_neg; ring.
+  Qed.
+
+  Fixpoint DD (ds : list day) : Q :=
+    match ds with
+    | [] => 0
+    | d :: rest => (match firstclose cds rest with Some cd => psum (G cd) (day_postings d) | None => 0 end) + DD rest
+    end.
+
+  Lemma close_day s d s' d' :
+    map_ok (c_qty s) -> posts_ok (day_postings d) ->
+    process_day (close_proc cds) s d = ROk (s', d') ->
+    d' = (if existsb (Z.eqb (d_date d)) cds
+          then set_txns d (d_txns d ++ closing_txns (d_date d) (c_qty s) (c_val s)) else d)
+    /\ map_ok (c_qty s')
+    /\ forall g, msum g (c_qty s') == (if existsb (Z.eqb (d_date d)) cds then 0 else msum g (c_qty s)) + psum g (day_postings d).
+  Proof.
+    intros Hm Hok H. unfold process_day in H.
+    cbn [close_proc pr_day_start pr_price pr_open pr_balance pr_close pr_day_end] in H.
+    unfold close_day_start in H.
+    assert (Ha : forall l s0, fold_asserts (close_proc cds) s0 l = ROk s0).
+    { induction l as [|a l IHl]; intros s0; cbn [fold_asserts close_proc pr_balance rbind]; [reflexivity|apply IHl]. }
+    destruct (existsb (Z.eqb (d_date d)) cds) eqn:Ecl; cbn [rbind fst snd] in H.
+    - cbn [set_txns d_txns d_date d_prices d_opens d_asserts d_closes d_normalized] in H.
+      destruct (fold_txns (close_proc cds) s (d_txns d ++ closing_txns (d_date d) (c_qty s) (c_val s))) as [[s1 ts1]| |] eqn:E1;
+        try discriminate.
+      cbn [rbind fst snd] in H. rewrite Ha in H. cbn [rbind] in H. inversion H; subst s' d'. clear H.
+      destruct (closing_txns_psum (fun _ _ => 0) (d_date d) (c_val s) (c_qty s) (proj2 Hm)) as [_ Hcok].
+      assert (Hall : posts_ok (txns_postings (d_txns d ++ closing_txns (d_date d) (c_qty s) (c_val s)))).
+      { rewrite txns_postings_app. apply posts_ok_app. split; assumption. }
+      destruct (close_txns cds _ _ _ _ Hm Hall E1) as (-> & Hm1 & Hs1).
+      split; [reflexivity|split; [assumption|]]. intros g.
+      rewrite Hs1, txns_postings_app, psum_app.
+      rewrite (proj1 (closing_txns_psum g (d_date d) (c_val s) (c_qty s) (proj2 Hm))).
+      rewrite day_postings_txns. ring.
+    - destruct (fold_txns (close_proc cds) s (d_txns d)) as [[s1 ts1]| |] eqn:E1; try discriminate.
+      cbn [rbind fst snd] in H. rewrite Ha in H. cbn [rbind] in H. inversion H; subst s' d'. clear H.
+      destruct (close_txns cds _ _ _ _ Hm Hok E1) as (-> & Hm1 & Hs1).
+      split; [apply day_rebuild|split; [assumption|]]. intros g. rewrite Hs1. reflexivity.
+  Qed.
+
+  Lemma close_days : forall ds s s' ds',
+    map_ok (c_qty s) -> posts_ok (days_postings ds) ->
+    process_days (close_proc cds) s ds = ROk (s', ds') ->
+    q_total q row k (days_postings ds') ==
+    q_total q row k (days_postings ds)
+    + (match firstclose cds ds with Some cd => msum (G cd) (c_qty s) | None => 0 end) + DD ds.
+  Proof.
+    induction ds as [|d ds IH]; intros s s' ds' Hm Hok H; cbn [process_days] in H.
+    - inversion H; subst. cbn. ring.
+    - destruct (process_day (close_proc cds) s d) as [[s1 d1]| |] eqn:E1; try discriminate.
+      cbn [rbind fst snd] in H.
+      destruct (process_days (close_proc cds) s1 ds) as [[s2 ds2]| |] eqn:E2; try discriminate.
+      cbn [rbind fst snd] in H. inversion H; subst s' ds'. clear H.
+      unfold days_postings in Hok. cbn [map concat] in Hok. apply posts_ok_app in Hok. destruct Hok as [Hd Hds].
+      destruct (close_day _ _ _ _ Hm Hd E1) as (Hd1 & Hm1 & Hs1).
+      specialize (IH _ _ _ Hm1 Hds E2).
+      unfold days_postings in *. cbn [map concat]. rewrite !q_total_app, IH. clear IH.
+      cbn [DD]. unfold firstclose at 2. unfold dates. cbn [map find].
+      change (find (fun x => existsb (Z.eqb x) cds) (map d_date ds)) with (firstclose cds ds).
+      destruct (existsb (Z.eqb (d_date d)) cds) eqn:Ecl.
+      + subst d1. rewrite day_postings_txns. cbn [set_txns d_txns]. rewrite txns_postings_app, q_total_app.
+        rewrite closing_txns_total, <- day_postings_txns.
+        destruct (firstclose cds ds) as [cd|]; [rewrite (Hs1 (G cd))|]; ring.
+      + subst d1. destruct (firstclose cds ds) as [cd|]; [rewrite (Hs1 (G cd))|]; ring.
+  Qed.
+End CloseFold.
